@@ -1123,11 +1123,17 @@ func opValueStateVarJournal(ctx context.Context, pc *uint64, interpreter *EVMInt
 }
 
 func loadDataFromMem(memPtr *uint256.Int, mem *Memory) ([]byte, uint64, error) {
-	offset := int64(memPtr.Uint64())
-	dataLen := new(uint256.Int).SetBytes(mem.GetCopy(offset, 32))
-	if !memPtr.IsUint64() {
+	// the length word and the data it announces must lie inside the memory already allocated
+	memLen := uint64(mem.Len())
+	ptr, overflow := memPtr.Uint64WithOverflow()
+	if overflow || ptr > memLen || memLen-ptr < 32 {
+		return nil, 0, errors.New("mem data out of range")
+	}
+	offset := int64(ptr)
+	dataLen, overflow := new(uint256.Int).SetBytes(mem.GetCopy(offset, 32)).Uint64WithOverflow()
+	if overflow || dataLen > memLen-ptr-32 {
 		return nil, 0, errors.New("mem data too long")
 	}
 
-	return mem.GetCopy(offset+32, int64(dataLen.Uint64())), dataLen.Uint64(), nil
+	return mem.GetCopy(offset+32, int64(dataLen)), dataLen, nil
 }
